@@ -87,6 +87,6 @@ class RoundTrip(Harness):
 
 def harnesses(tier):
     n = 1 if tier == "quick" else 2
-    hs = [RoundTrip("DataFrame", f, n) for f in ("pickle", "npz", "parquet", "csv", "json")]
+    hs = [RoundTrip("DataFrame", f, 2 if f in ("pickle", "npz", "parquet") else n) for f in ("pickle", "npz", "parquet", "csv", "json")]
     hs += [RoundTrip("ListOfDicts", f, n) for f in ("pickle", "json", "csv")]
     return hs
